@@ -1042,21 +1042,6 @@ func shrinkModel(c Case) Case {
 }
 
 // ---------- search-only stream ----------
-var findingSeen = map[string]bool{}
-
-// findingKey names defects that have been analysed and reported, so that the
-// driver can match them against known_findings.json (an unlisted key is still
-// a failure of the check).
-func findingKey(target string, g guardResult) string {
-	if target == "runtime.IOTree" && g.panicked && strings.Contains(g.panicVal, "key format: malformed input") {
-		return "C16:io-tree-short-key-keyformat-decode-panic"
-	}
-	if target == "stateless.BlockResults.Meta" && g.panicked && strings.Contains(g.panicVal, "nil pointer dereference") {
-		return "C16:stateless-verifyBlockResults-nil-tx-result"
-	}
-	return ""
-}
-
 func runSearch(seed uint64, n int, out string, rc *Case) {
 	sum := coqout.NewSummary("SEARCH ONLY (no model, not part of the proof): per entry point, valid seeds plus 1-3 stacked mutations (truncate, extend, bit flip, 16/32-bit length fields set to 0/+-1/max, kind byte, delete/duplicate chunk, CBOR heads declaring huge arrays/maps/strings, indefinite lengths, tags, nesting up to 300, splices) and some pure random inputs; failure = panic, > 2 s, or > 256 MiB allocated in one call. distinct = distinct (target, input); non-trivial = the entry point accepted the input")
 	targets := append(searchTargets(), searchTargetsExtra()...)
@@ -1093,15 +1078,7 @@ func runSearch(seed uint64, n int, out string, rc *Case) {
 			small := shrinkBytes(b, func(x []byte) bool { gg, _ := runOne(t, x); return gg.violation() != "" })
 			cs := Case{Kind: "search", Target: t.name, Data: hex.EncodeToString(small), Origin: origin}
 			what := "search " + t.name + ": " + v
-			if key := findingKey(t.name, g); key != "" {
-				if !findingSeen[key] {
-					findingSeen[key] = true
-					sum.Findings = append(sum.Findings, coqout.Finding{Key: key, What: what, Replay: map[string]any{"case": cs}})
-				}
-				sum.Count("finding", key)
-			} else {
-				sum.Violations = append(sum.Violations, map[string]any{"what": what, "case": cs})
-			}
+			sum.Violations = append(sum.Violations, map[string]any{"what": what, "case": cs})
 		}
 	}
 	if rc != nil {
